@@ -65,8 +65,8 @@ CHECKS = {
  'C14': dict(
   technique="contract-based deductive verification of rebuild_optimized_asm_block under loop contracts (inductive invariants selected by the shape of each loop; lists of symbolic length as ropes of slices; VCs from the real AST, z3; counter-models replayed on the real function), plus bounded stand-ins on the real functions for the splitting policies and the stack hand-over between sub-block specifications",
   category='other', ref='DESIGN.md section 4 (C14), section 9',
-  text="Proved for prefix, sub-blocks, replacements and suffix of ANY length, with the number of sub-blocks enumerated (1-2 quick, 3 thorough): on a well-formed splitting rebuild raises nothing, returns prefix ++ (replacement followed by the shared split item | original segment)* ++ rest, is the identity when nothing is replaced and leaves its input untouched. Bounded: all 7 536 (shape, replacement) combinations up to 3 sub-blocks (thorough: 4) - this case is also the stand-in when the loop annotations stop matching refactored code; for ~290 (block, policy) pairs (lengths 1..46, around the 22-instruction threshold, 3 policies) the reported sub-blocks join to the optimizable instruction list, are cut only at split instructions / stores, every specification key names a sub-block, original_instrs is the sub-block and the stack height change of each specification equals that of its sub-block.",
-  note=TRUST + "The number of sub-blocks is enumerated, not symbolic; items are opaque values observed through to_plain(), deepcopy(item) is an equal item; the PUSHLIB restoration loop is held to a frame contract only. The splitting policies themselves (split_blocks, get_subblocks) are bounded stand-ins."),
+  text="Proved for ANY number of sub-blocks and prefix, sub-blocks, replacements and suffix of ANY length (the loop over the sub-blocks under a contract of its own with ghost state: accumulated output BC_k, 'nothing replaced so far'; each iteration appends exactly E_k = [split item if the previous sub-block was replaced] ++ (replacement | original segment)): on a well-formed splitting rebuild raises nothing, returns prefix ++ E_0 ++ ... ++ E_(n-1) ++ rest, is the identity when nothing is replaced and leaves its input untouched. The same clauses with the number of sub-blocks enumerated (1-2 quick, 3 thorough) are kept because their counter-models replay on the real function. Bounded: all 7 536 (shape, replacement) combinations up to 3 sub-blocks (thorough: 4) - this case is also the stand-in when the loop annotations stop matching refactored code; for ~290 (block, policy) pairs (lengths 1..46, around the 22-instruction threshold, 3 policies) the reported sub-blocks join to the optimizable instruction list, are cut only at split instructions / stores, every specification key names a sub-block, original_instrs is the sub-block and the stack height change of each specification equals that of its sub-block.",
+  note=TRUST + "In the any-number proof the concatenation over all iterations is the ghost of the loop contract (defined by BC_0 = [], BC_(k+1) = BC_k ++ E_k: induction is the meta-step of the invariant rule), replacements are uninterpreted functions of the key block_name + '_' + str(k); items are opaque values observed through to_plain(), deepcopy(item) is an equal item; the PUSHLIB restoration loop is held to a frame contract only. The splitting policies themselves (split_blocks, get_subblocks) are bounded stand-ins."),
  'C15': dict(
   technique="contract on the item parser/serializer pair (to_json(build_asm_bytecode(d)) = d for all field values and optional-field combinations, both PUSH0 settings) and a loop contract on build_blocks_from_asm_representation (item lists of any length; VCs from the real AST, z3; counter-models replayed on the real function), plus bounded stand-ins: synthetic and shipped documents, plain-text spellings",
   category='other', ref='DESIGN.md section 4 (C15), section 9',
